@@ -1,0 +1,28 @@
+//go:build verif
+
+package cmd
+
+import (
+	"fmt"
+	"os"
+	"sort"
+
+	"github.com/Masterminds/semver"
+)
+
+// verifResolvedVersions prints the plugin version every configured database resolved to at startup
+// (one line `VERIF-RESOLVED <database> <version>` on stderr, sorted) when VERIF_DUMP_RESOLVED is set.
+// Only compiled with the `verif` build tag.
+func verifResolvedVersions(resolved map[string]*semver.Version) {
+	if os.Getenv("VERIF_DUMP_RESOLVED") == "" {
+		return
+	}
+	names := make([]string, 0, len(resolved))
+	for name := range resolved {
+		names = append(names, name)
+	}
+	sort.Strings(names)
+	for _, name := range names {
+		fmt.Fprintf(os.Stderr, "VERIF-RESOLVED %s %s\n", name, resolved[name].Original())
+	}
+}
